@@ -285,7 +285,11 @@ class Context(dict):
 
         """
         if input_string:
-            return eval(input_string, self._pystring_namespace)
+            # names the expression itself binds (assignment expressions) go
+            # to the child's own throw-away map, not into context.
+            return eval(input_string,
+                        self._pystring_namespace,
+                        self._pystring_namespace.new_child())
         else:
             # Empty input raises cryptic EOF syntax err, this more human
             # friendly
